@@ -43,6 +43,8 @@ func runC08(c *core.Ctx) {
 	c.Doc("C08.roots", "functions outside the decoder set that decode (from a reader they build, or without an error result of their own) look at the error of every decoding step", 20)
 	nr := ruleDecoderRoots(c, d, "C08.roots")
 	c.Note("decoder roots: %d decoding steps outside the decoder set", nr)
+	c.Doc("C08.errors-reported", "no error is built and then dropped in the codec packages (an error assigned to a shadowed variable: the truncation is detected and then forgotten)", 1)
+	ruleNoErrorBuiltAndDropped(c, "C08.errors-reported", "type", "meta/signature", "bus/net")
 	c.Doc("C08.reader-discipline", "readers are only consumed through the repository's decoders", 60)
 	ruleReaderDiscipline(c, d, "C08.reader-discipline", nil)
 }
